@@ -1,0 +1,106 @@
+//go:build verif
+
+package option
+
+// Contracts for the applicative / chain builders of package option
+// (applicative_gen.go and the arity-1 builders in option_op.go), checked by /verif/govc.
+// Comment-only file.
+//
+// Every lemma is the defining equation of one builder chain: the chain equals the
+// nested FlatMap expression (= LiftA{N}), as EqT: equal value AND identical sequence
+// of user-callback invocations.  Hence the result is the failure of the first failing
+// operand, a supplier positioned after the first failure is never invoked and the
+// earlier ones exactly once, in left-to-right order (C02); the function is applied
+// to the operands in their positions (C14).
+
+//@ import "github.com/csgura/fp/hlist"
+//
+//@ schema N=1..9
+//
+//@ lemma applicative{N}ApOption[<<i=1..N|, |A$i>>, R any](f func(<<i=1..N|, |A$i>>) R, <<i=1..N|, |x$i fp.Option[A$i]>>)
+//@   prop C01 C02 C14
+//@   ensures EqT(Applicative{N}(f)<<i=1..N||.ApOption(x$i)>>, <<i=1..N||FlatMap(x$i, func(a$i A$i) fp.Option[R] { return >>Some(f(<<i=1..N|, |a$i>>))<<i=1..N|| })>>)
+//
+//@ lemma applicative{N}ApOptionFunc[<<i=1..N|, |A$i>>, R any](f func(<<i=1..N|, |A$i>>) R, <<i=1..N|, |x$i func() fp.Option[A$i]>>)
+//@   prop C01 C02 C14
+//@   ensures EqT(Applicative{N}(f)<<i=1..N||.ApOptionFunc(x$i)>>, <<i=1..N||FlatMap(x$i(), func(a$i A$i) fp.Option[R] { return >>Some(f(<<i=1..N|, |a$i>>))<<i=1..N|| })>>)
+//
+//@ lemma applicative{N}Ap[<<i=1..N|, |A$i>>, R any](f func(<<i=1..N|, |A$i>>) R, <<i=1..N|, |x$i A$i>>)
+//@   prop C01 C02 C14
+//@   ensures EqT(Applicative{N}(f)<<i=1..N||.Ap(x$i)>>, Some(f(<<i=1..N|, |x$i>>)))
+//
+//@ lemma applicative{N}ApFunc[<<i=1..N|, |A$i>>, R any](f func(<<i=1..N|, |A$i>>) R, <<i=1..N|, |x$i func() A$i>>)
+//@   prop C01 C02 C14
+//@   ensures EqT(Applicative{N}(f)<<i=1..N||.ApFunc(x$i)>>, Some(f(<<i=1..N|, |x$i()>>)))
+//
+//@ lemma chain{N}ApOption[<<i=1..N|, |A$i>>, R any](f func(<<i=1..N|, |A$i>>) R, <<i=1..N|, |x$i fp.Option[A$i]>>)
+//@   prop C01 C02 C14
+//@   ensures EqT(Chain{N}(f)<<i=1..N||.ApOption(x$i)>>, <<i=1..N||FlatMap(x$i, func(a$i A$i) fp.Option[R] { return >>Some(f(<<i=1..N|, |a$i>>))<<i=1..N|| })>>)
+//
+//@ lemma chain{N}ApOptionFunc[<<i=1..N|, |A$i>>, R any](f func(<<i=1..N|, |A$i>>) R, <<i=1..N|, |x$i func() fp.Option[A$i]>>)
+//@   prop C01 C02 C14
+//@   ensures EqT(Chain{N}(f)<<i=1..N||.ApOptionFunc(x$i)>>, <<i=1..N||FlatMap(x$i(), func(a$i A$i) fp.Option[R] { return >>Some(f(<<i=1..N|, |a$i>>))<<i=1..N|| })>>)
+//
+//@ lemma chain{N}Ap[<<i=1..N|, |A$i>>, R any](f func(<<i=1..N|, |A$i>>) R, <<i=1..N|, |x$i A$i>>)
+//@   prop C01 C02 C14
+//@   ensures EqT(Chain{N}(f)<<i=1..N||.Ap(x$i)>>, Some(f(<<i=1..N|, |x$i>>)))
+//
+//@ lemma chain{N}ApFunc[<<i=1..N|, |A$i>>, R any](f func(<<i=1..N|, |A$i>>) R, <<i=1..N|, |x$i func() A$i>>)
+//@   prop C01 C02 C14
+//@   ensures EqT(Chain{N}(f)<<i=1..N||.ApFunc(x$i)>>, Some(f(<<i=1..N|, |x$i()>>)))
+//
+//@ lemma chain{N}FlatMap[<<i=1..N|, |A$i>>, R any](f func(<<i=1..N|, |A$i>>) R, g1 func(hlist.Nil) fp.Option[A1]<<i=2..N||, g$i func(A$(i-1)) fp.Option[A$i]>>)
+//@   prop C01 C02 C14
+//@   ensures EqT(Chain{N}(f)<<i=1..N||.FlatMap(g$i)>>, FlatMap(g1(hlist.Empty()), func(a1 A1) fp.Option[R] { return <<i=2..N||FlatMap(g$i(a$(i-1)), func(a$i A$i) fp.Option[R] { return >>Some(f(<<i=1..N|, |a$i>>))<<i=2..N|| })>> }))
+//
+//@ lemma chain{N}Map[<<i=1..N|, |A$i>>, R any](f func(<<i=1..N|, |A$i>>) R, g1 func(hlist.Nil) A1<<i=2..N||, g$i func(A$(i-1)) A$i>>)
+//@   prop C01 C02 C14
+//@   ensures EqT(Chain{N}(f)<<i=1..N||.Map(g$i)>>, FlatMap(Some(g1(hlist.Empty())), func(a1 A1) fp.Option[R] { return <<i=2..N||FlatMap(Some(g$i(a$(i-1))), func(a$i A$i) fp.Option[R] { return >>Some(f(<<i=1..N|, |a$i>>))<<i=2..N|| })>> }))
+//
+//@ lemma chain{N}HListFlatMap[<<i=1..N|, |A$i>>, R any](f func(<<i=1..N|, |A$i>>) R, h1 func(hlist.Nil) fp.Option[A1]<<i=2..N||, h$i func(<<j=i-1..1|~|hlist.Cons[A$j, >>hlist.Nil<<j=1..i-1||]>>) fp.Option[A$i]>>)
+//@   prop C01 C02 C14
+//@   ensures EqT(Chain{N}(f)<<i=1..N||.HListFlatMap(h$i)>>, FlatMap(h1(hlist.Empty()), func(a1 A1) fp.Option[R] { return <<i=2..N||FlatMap(h$i(<<j=i-1..1|~|hlist.Concat(a$j, >>hlist.Empty()<<j=1..i-1||)>>), func(a$i A$i) fp.Option[R] { return >>Some(f(<<i=1..N|, |a$i>>))<<i=2..N|| })>> }))
+//
+//@ lemma chain{N}HListMap[<<i=1..N|, |A$i>>, R any](f func(<<i=1..N|, |A$i>>) R, h1 func(hlist.Nil) A1<<i=2..N||, h$i func(<<j=i-1..1|~|hlist.Cons[A$j, >>hlist.Nil<<j=1..i-1||]>>) A$i>>)
+//@   prop C01 C02 C14
+//@   ensures EqT(Chain{N}(f)<<i=1..N||.HListMap(h$i)>>, FlatMap(Some(h1(hlist.Empty())), func(a1 A1) fp.Option[R] { return <<i=2..N||FlatMap(Some(h$i(<<j=i-1..1|~|hlist.Concat(a$j, >>hlist.Empty()<<j=1..i-1||)>>)), func(a$i A$i) fp.Option[R] { return >>Some(f(<<i=1..N|, |a$i>>))<<i=2..N|| })>> }))
+//
+//@ schema end
+//
+// Mixed chains: after a failing first operand the pure suppliers / continuations of the
+// later steps must not be invoked either.
+//
+//@ schema N=2..9
+//
+//@ lemma applicative{N}MixedPure[<<i=1..N|, |A$i>>, R any](f func(<<i=1..N|, |A$i>>) R, x1 fp.Option[A1]<<i=2..N||, s$i func() A$i>><<i=2..N||, a$i A$i>>)
+//@   prop C01 C02 C14
+//@   ensures EqT(Applicative{N}(f).ApOption(x1)<<i=2..N||.ApFunc(s$i)>>, FlatMap(x1, func(a1 A1) fp.Option[R] { return Some(f(a1<<i=2..N||, s$i()>>)) }))
+//@   ensures EqT(Applicative{N}(f).ApOption(x1)<<i=2..N||.Ap(a$i)>>, FlatMap(x1, func(a1 A1) fp.Option[R] { return Some(f(<<i=1..N|, |a$i>>)) }))
+//
+//@ lemma chain{N}MixedPure[<<i=1..N|, |A$i>>, R any](f func(<<i=1..N|, |A$i>>) R, x1 fp.Option[A1]<<i=2..N||, s$i func() A$i>><<i=2..N||, a$i A$i>>)
+//@   prop C01 C02 C14
+//@   ensures EqT(Chain{N}(f).ApOption(x1)<<i=2..N||.ApFunc(s$i)>>, FlatMap(x1, func(a1 A1) fp.Option[R] { return Some(f(a1<<i=2..N||, s$i()>>)) }))
+//@   ensures EqT(Chain{N}(f).ApOption(x1)<<i=2..N||.Ap(a$i)>>, FlatMap(x1, func(a1 A1) fp.Option[R] { return Some(f(<<i=1..N|, |a$i>>)) }))
+//
+//@ lemma chain{N}MixedMap[<<i=1..N|, |A$i>>, R any](f func(<<i=1..N|, |A$i>>) R, g1 func(hlist.Nil) fp.Option[A1]<<i=2..N||, g$i func(A$(i-1)) A$i>><<i=2..N||, h$i func(<<j=i-1..1|~|hlist.Cons[A$j, >>hlist.Nil<<j=1..i-1||]>>) A$i>>)
+//@   prop C01 C02 C14
+//@   ensures EqT(Chain{N}(f).FlatMap(g1)<<i=2..N||.Map(g$i)>>, FlatMap(g1(hlist.Empty()), func(a1 A1) fp.Option[R] { return <<i=2..N||FlatMap(Some(g$i(a$(i-1))), func(a$i A$i) fp.Option[R] { return >>Some(f(<<i=1..N|, |a$i>>))<<i=2..N|| })>> }))
+//@   ensures EqT(Chain{N}(f).HListFlatMap(g1)<<i=2..N||.HListMap(h$i)>>, FlatMap(g1(hlist.Empty()), func(a1 A1) fp.Option[R] { return <<i=2..N||FlatMap(Some(h$i(<<j=i-1..1|~|hlist.Concat(a$j, >>hlist.Empty()<<j=1..i-1||)>>)), func(a$i A$i) fp.Option[R] { return >>Some(f(<<i=1..N|, |a$i>>))<<i=2..N|| })>> }))
+//
+//@ schema end
+//
+// The same chains against the library's own LiftA{N} (which monad.contracts ties to the nested FlatMap).
+//
+//@ schema N=2..9
+//
+//@ lemma builders{N}EqualLiftA[<<i=1..N|, |A$i>>, R any](f func(<<i=1..N|, |A$i>>) R, <<i=1..N|, |x$i fp.Option[A$i]>>)
+//@   prop C01 C02 C14
+//@   ensures EqT(Applicative{N}(f)<<i=1..N||.ApOption(x$i)>>, LiftA{N}(f)(<<i=1..N|, |x$i>>))
+//@   ensures EqT(Chain{N}(f)<<i=1..N||.ApOption(x$i)>>, LiftA{N}(f)(<<i=1..N|, |x$i>>))
+//
+//@ schema end
+//
+//@ lemma pure01Def[A, R any](f func() R, g func(A) R, a A)
+//@   prop C02 C14
+//@   ensures EqT(Pure0(f)(fp.Unit{}), Some(f()))
+//@   ensures EqT(Pure1(g)(a), Some(g(a)))
